@@ -98,6 +98,13 @@ def build_go(race=False):
         if p.returncode != 0:
             raise Infra("go test -c storetrace failed (repository or harness does not compile):\n%s" % p.stderr[-4000:])
         outs["storetrace"] = out
+        if race:
+            out = os.path.join(BUILD, "bin", "storetrace-race")
+            p = run([GO, "test", "-c", "-race", "-modfile=" + modfile, "-tags", "verif", "-o", out, "./storetrace"],
+                    cwd=os.path.join(VERIF, "harness"), env=goenv(), timeout=1800)
+            if p.returncode != 0:
+                raise Infra("go test -c -race storetrace failed:\n%s" % p.stderr[-4000:])
+            outs["storetrace-race"] = out
         # the repository's own CLI (C18)
         out = os.path.join(BUILD, "bin", "setec-cli")
         p = run([GO, "build", "-o", out, "./cmd/setec"], cwd=REPO, env=goenv(), timeout=1200)
@@ -216,9 +223,10 @@ def proof_step(pid, tier):
 # ---------------------------------------------------------------- traces
 
 class Shard:
-    def __init__(self, family, args, driver=None, binary="trace", label=None):
+    def __init__(self, family, args, driver=None, binary="trace", label=None, race_props=()):
         self.family, self.args, self.driver, self.binary = family, args, driver or family, binary
         self.label = label or family
+        self.race_props = list(race_props)
 
 
 def run_shard(bins, sh, tmp, idx, keep_trace=False):
@@ -230,7 +238,11 @@ def run_shard(bins, sh, tmp, idx, keep_trace=False):
     t0 = time.time()
     env = dict(os.environ)
     env.setdefault("GOMEMLIMIT", "4GiB")
-    if sh.binary == "storetrace":
+    racelog = os.path.join(d, "race")
+    if sh.binary.endswith("-race"):
+        # a detected data race is an observation, not a crash: log it and let the run finish
+        env["GORACE"] = "halt_on_error=0 exitcode=0 log_path=" + racelog
+    if sh.binary.startswith("storetrace"):
         env["VERIF_TRACE_ARGS"] = json.dumps(cmd[1:])
         p = run([cmd[0], "-test.run", "^TestTrace$", "-test.timeout", "50m"], env=env, timeout=3600)
     else:
@@ -262,6 +274,18 @@ def run_shard(bins, sh, tmp, idx, keep_trace=False):
                 if len(out["samples"]) < 3:
                     out["samples"].append(line.rstrip("\n")[:600])
     out["trace_path"] = trace
+    # data-race reports of a -race binary
+    import glob
+    reports = []
+    for rp in glob.glob(racelog + ".*"):
+        txt = open(rp, errors="replace").read()
+        if "DATA RACE" in txt:
+            reports.append(txt)
+    for txt in reports[:3]:
+        first = [l.strip() for l in txt.splitlines() if l.strip().startswith(("Write at", "Read at", "Previous", "#0", "#1"))][:6]
+        for pid_ in sh.race_props:
+            out["propfail"].append("PROPFAIL %s no_data_race family=%s %s" % (pid_, sh.family, " | ".join(first)[:900]))
+    out["race_reports"] = len(reports)
     return out
 
 
